@@ -194,6 +194,17 @@ def build_cases(tier: str, seed: int) -> tuple[list[dict[str, Any]], dict[str, A
             for real in ("A", "B"):
                 add("prior-db", ids, E, depth, skip, False, prior_db=True, real=real)
     info["prior-db"] = "the database already holds session_transition rows of an earlier scan of the same target"
+    # skip lists given as range expressions (nested / overlapping / repeated ranges denote their union)
+    far = [1, 2, 3, 0x60, 0x61]
+    Efar = [[1, 1], [1, 2], [1, 3], [1, 0x60], [0x60, 0x61], [2, 1], [3, 1], [0x60, 1], [0x61, 1], [2, 0x61]]
+    for text, den in ((["0x04-0x7f", "0x40-0x5f"], list(range(4, 0x80))),
+                      (["4-127,64-95"], list(range(4, 0x80))),
+                      (["0x60-0x61", "0x60"], [0x60, 0x61]),
+                      (["3-0x70,0x10-0x20,5"], list(range(3, 0x71))),
+                      (["0x61,0x5f-0x62,0x60-0x61"], list(range(0x5F, 0x63)))):
+        for depth in (1, 3):
+            add("skip-text", far, Efar, depth, den, False, skip_text=text)
+    info["skip-text"] = "skip lists given as range expressions with nested / overlapping ranges"
     for _ in range(ndraw):
         c = random_case(rnd)
         c["fam"] = "draw-" + c.pop("shape")
